@@ -58,3 +58,5 @@ PROP = dict(
 PROP["technique"] += " + searchEytzinger, eytzinger, getCleanSet, prefixToUint16, uint16ToPrefix of both packages translated on every run (GoLite) and proved equal to the model's bsearch / eytz / clean / prefix"
 PROP["level_text"] += "; the bucketteer leaf functions of both packages are translated from the Go source on every run and proved to be the model's functions (C05_translated_* theorems)"
 PROP["trusted"] = ['translator gen/golite.go (Go leaf functions -> terms of the GoLite fragment, re-run on every check) and the semantics coq/GoLite.v (fixed-width wrap-around, panics on bad index / slice / shift / division, fuel for loops and calls; capacity identified with length; out-parameters for slices written through; aliasing of two arguments not detected) - DESIGN.md section 10a; exercised by the vm_compute examples of the property file'] + list(PROP.get("trusted", []))
+PROP["technique"] += " + (*Reader).Has itself (prefix table, hash count through readFullAt, section reader, hash, search whose getter is the function literal over the section reader) translated on every run and proved equal to the model's has for every file reader, offset table and signature"
+PROP["level_text"] += "; the whole lookup (*Reader).Has is translated from the Go source on every run - the function literal passed as the search's getter becomes its own translated function and the binding is recorded - and proved, for every file reader (all-or-nothing reads that may fail anywhere, files shorter than 2^62 bytes), every offset table related to the model's and every well-formed signature, to return what C05_Model.has returns (true / false, or an error where the model says Err), the uint32 wrap of the section size and the int64 conversion of the offset included (C05_translated_Has_is_the_models_has)"
